@@ -42,7 +42,11 @@ namespace occa {
       bool kernelHasValidReturnType(functionDeclStatement &kernelSmnt) {
         vartype_t &returnType = kernelSmnt.function().returnType;
 
-        if (*returnType.type != void_) {
+        // [void*] has the type [void] too: pointers and references to void are not [void]
+        if (!returnType.type
+            || (*returnType.type != void_)
+            || returnType.isPointerType()
+            || returnType.isReference()) {
           returnType.printError(
             "[@kernel] functions must have a [void] return type"
           );
